@@ -266,6 +266,35 @@ eng_selftest(void)
                         check_outcome(m, cfg, corrupt, n, "random subset");
                         cov_hit("C20", "%s|subset|%llx", g_cfgs[cfg].name, (unsigned long long) sig);
                 }
+                /* (3b) a used manager: every ring slot is left holding descriptor garbage by rejected jobs (the caller owns
+                 * the descriptor contents), then a clean re-init must run and pass every KAT again */
+                for (int pat = 0; pat < 2; pat++) {
+                        run_init(m, g_cfgs[cfg].arch, NULL);
+                        inits++;
+                        for (int i = 0; i < IMB_MAX_JOBS + 3; i++) {
+                                IMB_JOB *gj = (IMB_JOB *) mcall("get_next_job", (void *) m->get_next_job, 1, (uint64_t) m);
+                                const IMB_STATUS st = gj->status;
+                                memset(gj, pat ? 0xA5 : 0x7f, sizeof *gj);
+                                gj->status = st;
+                                mcall("submit_job", (void *) m->submit_job, 1, (uint64_t) m);
+                                while (mcall("get_completed_job", (void *) m->get_completed_job, 1, (uint64_t) m))
+                                        ;
+                        }
+                        while (mcall("flush_job", (void *) m->flush_job, 1, (uint64_t) m))
+                                ;
+                        run_init(m, g_cfgs[cfg].arch, NULL);
+                        inits++;
+                        snprintf(det, sizeof det, "clean re-init of a used manager (ring slots filled with 0x%02x by rejected jobs)",
+                                 pat ? 0xA5 : 0x7f);
+                        check_outcome(m, cfg, NULL, n, det);
+                        /* and a single corruption is still detected there */
+                        memset(corrupt, 0, sizeof corrupt);
+                        corrupt[rng_below(&r, (uint32_t) n)] = 1;
+                        run_init(m, g_cfgs[cfg].arch, corrupt);
+                        inits++;
+                        check_outcome(m, cfg, corrupt, n, "single corruption on a used manager");
+                        cov_hit("C20", "%s|used-manager|%d", g_cfgs[cfg].name, pat);
+                }
                 /* (4) clean re-init passes again; and a manager without callback behaves the same */
                 run_init(m, g_cfgs[cfg].arch, NULL);
                 inits++;
